@@ -1,6 +1,7 @@
 #include <cholmod.h>
 #include <math.h>
 #include <assert.h>
+#include <limits.h>
 
 #include "photospline/detail/splineutil.h"
 
@@ -147,7 +148,10 @@ slicemultiply(struct ndsparse *a, cholmod_sparse *b, int dim,
 {
 	cholmod_triplet *section;
 	cholmod_sparse *ssection;
-	int cols, i, j, k, stride;
+	int i, k;
+	/* flattened column numbers and strides are products of index ranges and
+	 * do not fit in 32 bits for long grids */
+	long cols, j, stride;
 
 	/* Check that the dimensions match */
 	if (b->nrow != a->ranges[dim])
@@ -162,11 +166,18 @@ slicemultiply(struct ndsparse *a, cholmod_sparse *b, int dim,
 	 */
 
 	cols = 1;
-	for (i = 0; i < a->ndim; i++)
+	for (i = 0; i < a->ndim; i++) {
 		if (i != dim) cols *= a->ranges[i];
+		/* the flattened matrix needs storage proportional to its number
+		 * of columns: refuse what cannot reasonably be held */
+		if (cols > INT_MAX)
+			return -1;
+	}
 
 	section = cholmod_l_allocate_triplet(a->ranges[dim], cols, a->rows, 0,
 	    CHOLMOD_REAL,c);
+	if (section == NULL)
+		return -1;
 	section->nnz = a->rows;
 
 	/* We rotate the array so that dim is at the front, then flatten. */
@@ -198,6 +209,7 @@ slicemultiply(struct ndsparse *a, cholmod_sparse *b, int dim,
 	/* Now obtain the sparse representation */
 	ssection = cholmod_l_triplet_to_sparse(section, 0, c);
 	if (c->status != CHOLMOD_OK) {
+		cholmod_l_free_triplet(&section, c);
 		return(-1);
 	}
 
